@@ -54,7 +54,6 @@ func PickReader(
 		}
 		switch Category(err) {
 		case nil:
-			anyWarehouses = true
 			// pass
 		case rio.ErrWarehouseUnavailable:
 			if requireMono {
@@ -71,7 +70,15 @@ func PickReader(
 			log.WareReaderOpened(mon, addr, wareID)
 			return reader, nil // happy path return!
 		case rio.ErrWareNotFound:
+			anyWarehouses = true // it answered, so it was reachable.
 			log.WareNotFound(mon, err, addr, wareID)
+			continue // okay!  skip to the next one.
+		case rio.ErrWarehouseUnavailable:
+			// Some warehouses (http) can only be found unreachable when the read is attempted.
+			if requireMono {
+				return nil, err
+			}
+			log.WarehouseUnavailable(mon, err, addr, wareID, "read")
 			continue // okay!  skip to the next one.
 		default:
 			return nil, err
